@@ -129,6 +129,8 @@ def main():
     n_shape = 120 if ck.tier == "quick" else 1200
     rng = random.Random(ck.seed)
     progs = list(population.population(ck.seed, n_gen, yields=None)) + spin_shapes(rng, n_shape)
+    # (yields land on consuming transitions at -O3: a yield that forgets to advance re-yields for ever)
+    progs += [dict(p, name=p["name"] + "@O3", level="-O3") for p in progs if p.get("origin") == "corpus" and "yield " in p["src"]]
     for p in progs:
         if p["feats"].get("yields") is None:
             p["feats"].pop("yields", None)
